@@ -350,7 +350,9 @@ def stepOp (w : NWorld) (toks : List String) : Option (NWorld × String) :=
         match s.timeSinceLastReceivedPacket id with
         | .ok idle =>
           let ids := ",".intercalate (s.clientsId.map toString)
-          some (w, s!"ids=[{ids}] n={s.connectedClients} max={s.maxClients} conn={bit (s.isClientConnected id)} addr={showOpt Addr.toText (s.clientAddr id)} ud={showOpt (fun u => toHex (u.take 8)) (s.userData id)} idle={showOpt toString idle}")
+          let slots := ",".intercalate (s.clientsSlot.map toString)
+          let pub := if s.addresses.isEmpty then "-" else ",".intercalate (s.addresses.map Addr.toText)
+          some (w, s!"ids=[{ids}] n={s.connectedClients} max={s.maxClients} conn={bit (s.isClientConnected id)} addr={showOpt Addr.toText (s.clientAddr id)} ud={showOpt (fun u => toHex (u.take 8)) (s.userData id)} idle={showOpt toString idle} time={s.currentTime} slots=[{slots}] pub={pub}")
         | .err e => nomatch e
         | .panic _ => some (die w)
       | none => bad
